@@ -81,7 +81,11 @@ class EG:
             return ["/", self.expr(depth - 1), ["+", ["num", 1.0], self.expr(depth - 1)]]
         if k == "pow":
             self.feats.add("power")
-            return ["pow", self.expr(depth - 1), d(st.sampled_from([2, 3, 0.5]))]
+            ex = d(st.sampled_from([2, 3, 0.5]))
+            base = self.expr(depth - 1)
+            if ex == 0.5:
+                base = ["+", ["num", 1.0], ["*", base, base]]  # keep the root real
+            return ["pow", base, ex]
         if k == "exp":
             self.feats.add("transcendental")
             return ["exp", ["neg", self.expr(depth - 1)]]
@@ -424,8 +428,12 @@ def compare(doc: dict, m, amounts: list[float], t: float, out: Outcome, tag: str
     except (ZeroDivisionError, OverflowError, ValueError):
         out.skipped = "reference-undefined"
         return
-    ic = dict(m.get_initial_conditions())
-    args0 = m.get_args()
+    try:
+        ic = dict(m.get_initial_conditions())
+        args0 = m.get_args()
+    except (TypeError, ZeroDivisionError, OverflowError, ValueError) as e:
+        out.skipped = f"imported-model-undefined-at-initial-state:{type(e).__name__}"
+        return
     feats = set(doc["features"])
     def _syms(e, acc):
         if isinstance(e, list):
